@@ -86,6 +86,7 @@ class UnitTables:
         self.quantities_node = None
         self.n_explicit = 0
         self.n_generated = 0
+        self.aliased = []
         self._eval_module_level()
         self._audit_other_writers()
 
@@ -114,43 +115,43 @@ class UnitTables:
                                         raise AnalysisError(f'{st.name}.{t.id} initialised in the class body with a non-empty '
                                                             f'expression; table built by unrecognised construct')
                 continue
-            if isinstance(st, ast.Assign) and len(st.targets) == 1:
-                t = st.targets[0]
-                if isinstance(t, ast.Name) and t.id == 'QUANTITIES':
-                    if not isinstance(st.value, (ast.List, ast.Tuple)) or not all(isinstance(e, ast.Name) for e in st.value.elts):
-                        raise AnalysisError('QUANTITIES is not a list display of class names')
-                    self.quantities = [e.id for e in st.value.elts]
-                    self.quantities_node = st
-                    continue
-                if isinstance(t, ast.Attribute) and t.attr in ('_mul', '_div') and isinstance(t.value, ast.Name):
+            if isinstance(st, ast.Assign) and len(st.targets) == 1 and isinstance(st.targets[0], ast.Name) and st.targets[0].id == 'QUANTITIES':
+                if not isinstance(st.value, (ast.List, ast.Tuple)) or not all(isinstance(e, ast.Name) for e in st.value.elts):
+                    raise AnalysisError('QUANTITIES is not a list display of class names')
+                self.quantities = [e.id for e in st.value.elts]
+                self.quantities_node = st
+                continue
+            if isinstance(st, ast.Assign) and all(isinstance(t, ast.Attribute) and t.attr in ('_mul', '_div') and isinstance(t.value, ast.Name)
+                                                  for t in st.targets):
+                # one dict object, possibly bound to several tables (a chained assignment aliases them, as in Python)
+                shared = {}
+                if isinstance(st.value, ast.Dict):
+                    for k, v in zip(st.value.keys, st.value.values):
+                        kn, vn = self._cls_name(k), self._cls_name(v)
+                        if kn is None or vn is None:
+                            raise AnalysisError(f'{unparse(st.targets[0])}: entry {unparse(k) if k else "**"}: {unparse(v)} is not class: class')
+                        shared[kn] = Entry(kn, vn, v, 'explicit-duplicate' if kn in shared else 'explicit')
+                        self.n_explicit += 1
+                elif isinstance(st.value, ast.DictComp) and len(st.value.generators) == 1 and isinstance(st.value.generators[0].target, ast.Name) \
+                        and unparse(st.value.generators[0].iter) == 'QUANTITIES' and not st.value.generators[0].ifs and self.quantities is not None:
+                    g = st.value.generators[0]
+                    for qn in self.quantities:
+                        kn = self._cls_name(st.value.key, (g.target.id, qn))
+                        vn = self._cls_name(st.value.value, (g.target.id, qn))
+                        if kn is None or vn is None:
+                            raise AnalysisError(f'{unparse(st)}: comprehension entry not class: class')
+                        shared[kn] = Entry(kn, vn, st.value, 'generated')
+                        self.n_generated += 1
+                else:
+                    raise AnalysisError(f'table built by unrecognised construct: {unparse(st)[:80]}')
+                for t in st.targets:
                     cls = t.value.id
                     if cls not in self.tables:
                         raise AnalysisError(f'{unparse(t)}: not a Quantity class')
-                    tab = self._tab(t.attr)
-                    tab[cls] = {}
-                    if isinstance(st.value, ast.Dict):
-                        for k, v in zip(st.value.keys, st.value.values):
-                            kn, vn = self._cls_name(k), self._cls_name(v)
-                            if kn is None or vn is None:
-                                raise AnalysisError(f'{unparse(t)}: entry {unparse(k) if k else "**"}: {unparse(v)} is not class: class')
-                            if kn in tab[cls]:
-                                tab[cls][kn] = Entry(kn, vn, v, 'explicit-duplicate')
-                            else:
-                                tab[cls][kn] = Entry(kn, vn, v, 'explicit')
-                            self.n_explicit += 1
-                        continue
-                    if isinstance(st.value, ast.DictComp) and len(st.value.generators) == 1:
-                        g = st.value.generators[0]
-                        if isinstance(g.target, ast.Name) and unparse(g.iter) == 'QUANTITIES' and not g.ifs and self.quantities is not None:
-                            for qn in self.quantities:
-                                kn = self._cls_name(st.value.key, (g.target.id, qn))
-                                vn = self._cls_name(st.value.value, (g.target.id, qn))
-                                if kn is None or vn is None:
-                                    raise AnalysisError(f'{unparse(st)}: comprehension entry not class: class')
-                                tab[cls][kn] = Entry(kn, vn, st.value, 'generated')
-                                self.n_generated += 1
-                            continue
-                    raise AnalysisError(f'table built by unrecognised construct: {unparse(st)[:80]}')
+                    self._tab(t.attr)[cls] = shared
+                if len(st.targets) > 1:
+                    self.aliased.append(' = '.join(unparse(t) for t in st.targets))
+                continue
             if isinstance(st, ast.For) and unparse(st.iter) == 'QUANTITIES' and isinstance(st.target, ast.Name):
                 if self.quantities is None:
                     raise AnalysisError('for-loop over QUANTITIES before its definition')
